@@ -1,7 +1,10 @@
 """C11 - trie node storage stays exact under reference counting and garbage collection.
 Model: spec/mptref (MPTRef abstract judge, MPTRefImpl code-shaped model of Flush / the shared refcount cache /
-GC, MPTRefSim generator, MPTRefTrace validator of dumped DataMPT tables).
-Real code: stateroot.Module and core.Blockchain driven by harness/c11ref."""
+write cache over the backend / GC, MPTRefSim generator, MPTRefTrace validator of dumped DataMPT tables).
+Real code: stateroot.Module (PutBatch path), mpt.Trie (single Put/Delete path) and core.Blockchain driven by harness/c11ref.
+`tools/vcheck C11 --replay replays/C11-<seed>-<n>.json` re-executes the history of a module / trie level finding.
+VERIF_C11_NOMC=1 skips the exhaustive model runs (development aid for mutation runs)."""
+import copy
 import json
 import os
 import random
@@ -9,15 +12,23 @@ import random
 import vlib
 
 RULE = ("cases = steps (block commit / computed-but-dropped block / GC / flush / re-initialisation) executed on a real "
-        "stateroot.Module in ModeLatest and ModeGC and blocks of a real core.Blockchain (KeepOnlyLatestState / "
-        "RemoveUntraceableBlocks), each followed by a dump of the raw DataMPT table and read probes of every known "
-        "height; distinct = distinct (mode, operation, resulting root, table size, table delta sizes) tuples; every "
-        "step is non-trivial in that TLC recomputes reachability and occurrence counts from the dumped table and "
-        "evaluates all abstract predicates of MPTRef on it")
+        "stateroot.Module in ModeLatest and ModeGC (TLC behaviours of MPTRefImpl and seeded random histories over six key "
+        "universes), the same histories through single Put/Delete calls on mpt.Trie, and blocks / flushes / GC runs / a "
+        "dropped block of a real core.Blockchain (KeepOnlyLatestState / RemoveUntraceableBlocks / StateRootInHeader), "
+        "each followed by a dump of the raw DataMPT table and read probes of every known height; distinct = distinct (mode, "
+        "operation, resulting root, table size, table delta sizes) tuples; every step is non-trivial in that TLC recomputes "
+        "reachability and occurrence counts from the dumped table and evaluates all abstract predicates of MPTRef on it")
 
 PRIORITY = ["ApplyFailed", "LatestNodeMissing", "Undecodable", "CountMismatch", "GarbageKept", "UnreferencedActive",
             "InactiveSinceWrong", "GCRemovedNeeded", "RetainedNodeMissing", "RetainedReadWrong", "RetainedFindWrong",
             "DroppedReadWrongData", "DroppedFindWrongData", "HeightSkipped"]
+
+# exhaustive configurations: (cfg, quick?, timeout)
+MC_OK = [("MC_Latest.cfg", True), ("MC_LatestDrop.cfg", True), ("MC_GC41.cfg", True),
+         ("MC_GC.cfg", False), ("MC_GCDrop.cfg", False), ("MC_Latest5.cfg", False)]
+# named deviations every one of which the invariants must catch (model non-vacuity)
+MC_DEV = ["MC_LatestDropShares.cfg", "MC_GCDropShares.cfg", "MC_GCBugGC.cfg", "MC_LatestBugStale.cfg"]
+SIMS = ["Sim_Latest.cfg", "Sim_GC.cfg", "Sim_LatestDrop.cfg", "Sim_GCDrop.cfg", "Sim_GC3.cfg"]
 
 
 def first_name(what):
@@ -37,30 +48,101 @@ def histories(events):
     return starts
 
 
-def judge(ctx, trace, timeout):
-    events = vlib.read_ndjson(trace)
-    fails = ctx.trace_judge("mptref", "MPTRefTrace.tla", "Trace_MPTRef.cfg", trace, timeout=timeout)
-    return events, fails
+def to_history(h):
+    """TLC behaviour (MPTRefSim.hist) -> driver history"""
+    init = h[0]
+    keys = sorted(init["keys"])
+    vals = sorted(init["vals"])
+    steps = []
+    for s in h[1:]:
+        st = {"op": s["op"], "commit": False, "collapse": -1, "persist": False, "g": 0, "ch": [], "pred": s["pred"]}
+        if s["op"] == "block":
+            st["commit"] = s["commit"]
+            st["collapse"] = {"none": -1, "deep": 10, "full": 0}[s["collapse"]]
+            st["ch"] = sorted(({"k": keys.index(c["k"]) + 1, "v": (vals.index(c["v"]) + 1) if c["v"] else 0} for c in s["ch"]),
+                              key=lambda c: c["k"])
+        elif s["op"] == "gc":
+            st["g"] = s["g"]
+        steps.append(st)
+    return {"mode": init["mode"], "keys": keys, "vals": vals, "steps": steps}
 
 
-def run(ctx):
-    q = ctx.quick()
-    ind = os.path.join(ctx.work, "in-c11")
-    os.makedirs(ind)
-    behaviours = []
-    json.dump(behaviours, open(os.path.join(ind, "behaviours.json"), "w"))
-    res = ctx.go_driver("c11ref", "TestDriver", env={"VERIF_IN": ind, "VERIF_RANDOM": 300 if q else 6000,
-                                                     "VERIF_CHAINS": 6 if q else 60}, timeout=3000)
-    ctx.absorb(res)
-    trace = os.path.join(res["_out"], "trace.ndjson")
-    events, fails = judge(ctx, trace, 3000)
-    ctx.traces_validated += res.get("traces", 0)
-    ctx.extra["trace_events"] = len(events)
+def judge_parallel(ctx, events, parts, timeout):
+    """Judge a long trace as `parts` independent TLC runs (histories are independent: cut at init events).
+    Returns the failure records with global line numbers."""
+    import concurrent.futures
+    import shutil
+    starts = [i for i, e in enumerate(events) if e["event"] == "init"]
+    if parts <= 1 or len(starts) < parts * 2:
+        path = os.path.join(ctx.work, "whole.ndjson")
+        vlib.write_ndjson(path, events)
+        return ctx.trace_judge("mptref", "MPTRefTrace.tla", "Trace_MPTRef.cfg", path, timeout=timeout)
+    per = (len(events) + parts - 1) // parts
+    cuts, nxt = [0], per
+    for s in starts:
+        if s >= nxt:
+            cuts.append(s)
+            nxt = s + per
+    cuts.append(len(events))
+    src = ctx.spec_scratch("mptref")
+
+    def one(k):
+        a, b = cuts[k], cuts[k + 1]
+        d = os.path.join(ctx.work, "trpart-%d" % k)
+        shutil.copytree(src, d)
+        vlib.write_ndjson(os.path.join(d, "trace.ndjson"), events[a:b])
+        r = ctx.tlc(d, "MPTRefTrace.tla", "Trace_MPTRef.cfg", timeout, workers=1, tag="tracepart%d" % k)
+        shutil.rmtree(d, ignore_errors=True)
+        if r["timed_out"] or r["error"] or r["rc"] != 0:
+            raise vlib.Inconclusive("trace part %d was not consumed entirely: %s\n%s" % (k, r.get("error"), vlib.tail(r["out"], 20)))
+        out = []
+        for line in r["out"].splitlines():
+            i = line.find("@@FAIL@@")
+            if i >= 0:
+                js = vlib.extract_tla_string(line[i + 8:])
+                if js is not None:
+                    f = json.loads(js)
+                    f["line"] += a
+                    out.append(f)
+        return out, r.get("states", 0), r.get("transitions", 0)
+
+    fails = []
+    with concurrent.futures.ThreadPoolExecutor(max_workers=parts) as ex:
+        for out, st, tr in ex.map(one, range(len(cuts) - 1)):
+            fails += out
+            ctx.states += st
+            ctx.transitions += tr
+    fails.sort(key=lambda f: f["line"])
+    return fails
+
+
+def events_to_history(evs):
+    """driver history (module / trie layer) reconstructed from the recorded events of one history"""
+    init = evs[0]
+    keys, vals = init["keys"], init["vals"]
+    steps = []
+    for e in evs[1:]:
+        if e["event"] == "block":
+            steps.append({"op": "block", "commit": e["committed"] or e.get("failed", False), "collapse": e.get("collapse", -1),
+                          "persist": bool(e.get("persist")), "g": 0,
+                          "ch": [{"k": keys.index(k) + 1, "v": (vals.index(v) + 1) if v else 0} for k, v in e["ch"]]})
+        elif e["event"] == "gc":
+            steps.append({"op": "gc", "g": e["g"], "commit": False, "collapse": -1, "persist": False, "ch": []})
+        elif e["event"] in ("persist", "reinit"):
+            steps.append({"op": e["event"], "g": 0, "commit": False, "collapse": -1, "persist": False, "ch": []})
+    h = {"mode": init["mode"], "keys": keys, "vals": vals, "steps": steps}
+    if init["layer"] == "trie":
+        h["api"] = "trie"
+    return h
+
+
+def report(ctx, events, fails):
     starts = histories(events)
-    reported = set()
+    reported, bad = set(), set()
     for f in fails:
         li = f["line"] - 1
         s = starts[li]
+        bad.add(s)
         if s in reported:
             continue
         reported.add(s)
@@ -68,14 +150,238 @@ def run(ctx):
         name = first_name(f["what"])
         sig = {"kind": name, "op": ev["event"], "mode": init["mode"], "layer": init["layer"],
                "history": ev.get("class", "committed-only")}
-        ctx.violation(sig, {"what": "abstract predicate(s) %s false on the real DataMPT table after %s" % (
-            sorted(f["what"]), ev["event"]), "ctx": f.get("ctx"), "src": init.get("src"),
-            "history": [strip(e) for e in events[s:li + 1]]})
+        detail = {"what": "abstract predicate(s) %s false on the real DataMPT table after %s" % (sorted(f["what"]), ev["event"]),
+                  "ctx": f.get("ctx"), "src": init.get("src"), "events": [strip(e) for e in events[s:li + 1]]}
+        if init["layer"] != "chain":
+            detail["history"] = events_to_history(events[s:li + 1])     # tools/vcheck C11 --replay <this file> re-executes it
+        else:
+            detail["chain"] = init.get("cfg")
+        ctx.violation(sig, detail)
+    return starts, bad
+
+
+def replay(ctx):
+    """re-execute the history of a replay file (module / trie layer) on the real code and judge it again"""
+    d = json.load(open(ctx.replay))
+    h = d.get("detail", {}).get("history") or d.get("detail", {}).get("replay", {}).get("history") or d.get("history")
+    if not h:
+        raise vlib.Inconclusive("replay file has no module-level history (chain-level findings are re-run by seed)")
+    ind = os.path.join(ctx.work, "in-c11")
+    os.makedirs(ind)
+    json.dump([h], open(os.path.join(ind, "behaviours.json"), "w"))
+    res = ctx.go_driver("c11ref", "TestDriver", env={"VERIF_IN": ind, "VERIF_RANDOM": 0, "VERIF_TRIE": 0, "VERIF_CHAINS": 0}, timeout=600)
+    ctx.absorb(res)
+    trace = os.path.join(res["_out"], "trace.ndjson")
+    events = vlib.read_ndjson(trace)
+    fails = ctx.trace_judge("mptref", "MPTRefTrace.tla", "Trace_MPTRef.cfg", trace, timeout=600)
+    report(ctx, events, fails)
+    ctx.traces_validated += res.get("traces", 0)
+    ctx.samples.append({"replayed": h})
+
+
+ASSUMPTIONS = [
+    "a node is identified in the logs by the first 8 bytes of its 32-byte hash (the stored key)",
+    "the table is read through the top write cache of the store (merged view of all layers), after every step",
+    "MPTRefImpl assumes that addRef/removeRef leave delta = occurrence difference in the cache; the table validation "
+    "(occurrences recomputed from the dumped table by TLC) is what establishes it on the real code",
+    "chain layer: the GC height is the `index` field of the module's 'starting MPT garbage collection' log entry; "
+    "heights >= the highest such index are the retained ones",
+    "module layer: re-initialisation (Module.Init) is skipped while the trie is empty (a ledger is never empty)",
+    "constants of the exhaustive runs: K4 = {11,12,21,22}, K3 = {11,1121,21} (nibble paths), V2 = {aa,bb}, V1 = {aa}; "
+    "MC_Latest: K4xV2, 3 blocks; MC_LatestDrop: +1 dropped block; MC_GC41: K4xV1 ModeGC 3 blocks; MC_GC / MC_GCDrop: K3xV2 "
+    "ModeGC 3 blocks (+1 dropped); MC_Latest5: K4xV2 5 blocks; batches of at most 2 keys",
+]
+
+
+def run(ctx):
+    ctx.assumptions += ASSUMPTIONS
+    if ctx.replay:
+        return replay(ctx)
+    q = ctx.quick()
+    # 1. exhaustive: Impl => Abstract
+    nomc = bool(os.environ.get("VERIF_C11_NOMC"))    # development aid (mutation runs): skip the exhaustive model runs
+    for cfg, in_quick in MC_OK:
+        if (q and not in_quick) or nomc:
+            continue
+        # vacuity guard (thorough): every action of the GC configuration must have been taken
+        cov = (not q) and cfg == "MC_GC41.cfg"
+        ctx.tlc_mc("mptref", "MCMPTRef.tla", cfg, timeout=900 if q else 2400, workers=min(ctx.ncpu, 8 if q else 12),
+                   coverage=cov, must_cover=cov)
+    # model non-vacuity: the named deviations must be caught by the same invariants
+    for cfg in MC_DEV:
+        if nomc:
+            break
+        try:
+            ctx.tlc_mc("mptref", "MCMPTRef.tla", cfg, timeout=900, workers=min(ctx.ncpu, 8))
+            raise vlib.Inconclusive("deviation %s not detected by the model invariants (vacuous model)" % cfg)
+        except vlib.ModelError as e:
+            out = (e.res or {}).get("out", "")
+            if "is violated" not in out:
+                raise
+            ctx.extra["model_selftests"] = ctx.extra.get("model_selftests", 0) + 1
+    # 2. behaviours of the implementation-shaped model
+    behaviours, seen = [], set()
+    num = 25 if q else 500
+    for i, cfg in enumerate(SIMS):
+        for h in ctx.tlc_sim("mptref", "MPTRefSim.tla", cfg, num=num, depth=12, timeout=300 if q else 1500, seed=ctx.seed * 10 + i):
+            k = json.dumps(h, sort_keys=True)
+            if k not in seen:
+                seen.add(k)
+                behaviours.append(to_history(h))
+    rnd = random.Random(ctx.seed)
+    rnd.shuffle(behaviours)
+    behaviours = behaviours[: (700 if q else 6000)]
+    ind = os.path.join(ctx.work, "in-c11")
+    os.makedirs(ind)
+    json.dump(behaviours, open(os.path.join(ind, "behaviours.json"), "w"))
+    # 3. real code
+    res = ctx.go_driver("c11ref", "TestDriver", env={"VERIF_IN": ind, "VERIF_RANDOM": 600 if q else 6000,
+                                                     "VERIF_CHAINS": 6 if q else 36}, timeout=3000)
+    ctx.absorb(res)
+    # 4. TLC judges the dumped tables against the abstract specification
+    trace = os.path.join(res["_out"], "trace.ndjson")
+    events = vlib.read_ndjson(trace)
+    fails = judge_parallel(ctx, events, 1 if q else 8, 3000)
+    ctx.traces_validated += res.get("traces", 0)
+    ctx.extra["trace_events"] = len(events)
+    starts, bad_histories = report(ctx, events, fails)
+    # 5. binding self-test: corrupted copies of good recorded histories must be rejected
+    # (a run that already exhibits a violation has its verdict; the self-test needs accepted histories)
+    if not ctx.violations and not ctx.known_hits:
+        selftest(ctx, events, starts, bad_histories)
+    else:
+        selftest(ctx, events, starts, bad_histories, strict=False)
     if not ctx.samples:
-        ctx.samples.append({"note": "no sample"})
+        raise vlib.Inconclusive("no sample recorded")
 
 
 def strip(e):
     e = dict(e)
     e.pop("reads", None)
     return e
+
+
+def selftest(ctx, events, starts, bad, strict=True):
+    try:
+        selftest_(ctx, events, starts, bad)
+    except vlib.Inconclusive:
+        if strict:
+            raise
+        ctx.extra["binding_selftests_incomplete"] = True
+
+
+def selftest_(ctx, events, starts, bad):
+    """Each corruption changes one recorded field of a history the specification accepted."""
+    segs = []       # (name, expected failure, events)
+
+    def seg(name, expect, s, i, badev):
+        segs.append((name, expect, events[s:i] + [badev]))
+
+    want = {"count+1", "drop-put", "since", "keep-deleted", "gc-removes-needed", "retained-read", "dropped-read"}
+    done = set()
+    tables = {}     # re-assembled table per history while scanning
+    for i, e in enumerate(events):
+        s = starts[i]
+        if e["event"] == "init":
+            tables = {}
+            gmax = 0
+            mode, layer = e["mode"], e["layer"]
+            continue
+        if e["event"] == "gc":
+            gmax = max(gmax, e["g"])
+        if s in bad or layer != "module" or e.get("class") != "committed-only":
+            continue
+        before = dict(tables)
+        for p in e["put"]:
+            tables[p["id"]] = p
+        for d in e["del"]:
+            tables.pop(d, None)
+        if len(done) == len(want):
+            break
+        c = copy.deepcopy(e)
+        if "count+1" not in done and e["event"] == "block" and any(p["active"] for p in e["put"]):
+            j = [k for k, p in enumerate(e["put"]) if p["active"]][0]
+            c["put"][j]["count"] += 1
+            seg("count+1", "CountMismatch", s, i, c)
+            done.add("count+1")
+            continue
+        if "drop-put" not in done and e["event"] == "block" and e["committed"] and len(e["put"]) > 1 and \
+                any(p["active"] and p["id"] not in before for p in e["put"]):
+            j = [k for k, p in enumerate(e["put"]) if p["active"] and p["id"] not in before][0]
+            del c["put"][j]
+            seg("drop-put", "LatestNodeMissing", s, i, c)
+            done.add("drop-put")
+            continue
+        if "since" not in done and mode != "latest" and any(not p["active"] for p in e["put"]):
+            j = [k for k, p in enumerate(e["put"]) if not p["active"]][0]
+            c["put"][j]["since"] += 1
+            seg("since", "InactiveSinceWrong", s, i, c)
+            done.add("since")
+            continue
+        if "keep-deleted" not in done and mode == "latest" and e["del"]:
+            c["del"] = c["del"][1:]
+            seg("keep-deleted", "GarbageKept", s, i, c)
+            done.add("keep-deleted")
+            continue
+        if "gc-removes-needed" not in done and e["event"] == "gc":
+            cand = [n for n, p in tables.items() if not p["active"] and p["since"] > gmax]
+            if cand and e["g"] >= 1:
+                c["del"] = sorted(set(c["del"]) | {cand[0]})
+                seg("gc-removes-needed", "GCRemovedNeeded", s, i, c)
+                done.add("gc-removes-needed")
+                continue
+        if "retained-read" not in done:
+            hit = False
+            for r in c["reads"]:
+                if r["h"] == e["height"]:
+                    for g in r["get"]:
+                        if g[1] != "!":
+                            g[1] = "ee" + g[1]
+                            hit = True
+                            break
+            if hit:
+                seg("retained-read", "RetainedReadWrong", s, i, c)
+                done.add("retained-read")
+                continue
+        if "dropped-read" not in done and mode == "latest":
+            hit = False
+            for r in c["reads"]:
+                if r["h"] < e["height"]:
+                    for g in r["get"]:
+                        if g[1] == "!":
+                            g[1] = "ee"
+                            hit = True
+                            break
+                if hit:
+                    break
+            if hit:
+                seg("dropped-read", "DroppedReadWrongData", s, i, c)
+                done.add("dropped-read")
+                continue
+    missing = want - done
+    if missing:
+        raise vlib.Inconclusive("binding self-test could not find a place for corruption(s) %s" % sorted(missing))
+    path = os.path.join(ctx.work, "selftest.ndjson")
+    allev, owner = [], []
+    for k, (name, expect, evs) in enumerate(segs):
+        allev += evs
+        owner += [k] * len(evs)
+    vlib.write_ndjson(path, allev)
+    st, tr = ctx.states, ctx.transitions
+    fails = ctx.trace_judge("mptref", "MPTRefTrace.tla", "Trace_MPTRef.cfg", path, timeout=600)
+    ctx.states, ctx.transitions = st, tr
+    got = {}
+    last_line = {}
+    for k, (name, expect, evs) in enumerate(segs):
+        last_line[k] = sum(len(x[2]) for x in segs[:k + 1])
+    for f in fails:
+        k = owner[f["line"] - 1]
+        if f["line"] == last_line[k]:
+            got.setdefault(k, set()).update(f["what"])
+        else:
+            raise vlib.Inconclusive("binding self-test: an uncorrupted step was rejected (%s)" % f)
+    for k, (name, expect, evs) in enumerate(segs):
+        if expect not in got.get(k, set()):
+            raise vlib.Inconclusive("binding self-test %s: corrupted table was not rejected (%s expected, got %s)" % (
+                name, expect, sorted(got.get(k, set()))))
+        ctx.extra["binding_selftests"] = ctx.extra.get("binding_selftests", 0) + 1
